@@ -53,10 +53,18 @@ class Executor:
         self.extra_modules: Dict[str, ModInfo] = {}
         self.class_fields_hook: Dict[str, Callable] = {}  # external classes: name -> constructor handler
         self.global_axioms: List[z3.BoolRef] = []
+        self._feas_cache: Dict[Any, bool] = {}
+        self.index_ctx = None
+        self.skolems: List[Any] = []
+        self._keep: List[Any] = []
 
     # ------------------------------------------------------------------------------------------------ utilities
     def fresh(self, name: str, sort=None):
-        return z3.Const(f"{name}!{next(self._n)}", sort if sort is not None else Sc)
+        srt = sort if sort is not None else Sc
+        if self.index_ctx is not None:
+            # inside the generic element of a symbolic sequence: a function of the element's index
+            return z3.Function(f"{name}!{next(self._n)}", z3.IntSort(), srt)(self.index_ctx)
+        return z3.Const(f"{name}!{next(self._n)}", srt)
 
     def fresh_sv(self, name: str, ty: Optional[str] = None) -> SV:
         return SV(self.fresh(name), ty)
@@ -98,13 +106,35 @@ class Executor:
     def is_enum_of(self, t, cls: str) -> z3.BoolRef:
         return z3.And(Sc.is_e(t), Sc.ecls(t) == self.enum_id(cls))
 
-    def feasible(self, conds: Sequence[z3.BoolRef]) -> bool:
+    def feasible(self, conds: Sequence[z3.BoolRef], want_model: bool = False):
+        key = tuple(sorted(c.get_id() for c in conds))
+        hit = self._feas_cache.get(key)
+        if hit is not None and not want_model:
+            return hit
         s = z3.Solver()
         s.set("timeout", 2000)
         for a in self.global_axioms:
             s.add(a)
         s.add(*conds)
-        return s.check() != z3.unsat
+        r = s.check()
+        self._feas_cache[key] = r != z3.unsat
+        self._keep.extend(conds)  # keep the ASTs alive so that their ids stay unique
+        if want_model:
+            return (r != z3.unsat), (s.model() if r == z3.sat else None)
+        return r != z3.unsat
+
+    def _model_ok(self, st: State) -> bool:
+        m = st.model
+        if m is None:
+            return False
+        for p in st.pc[st.model_len:]:
+            try:
+                if not z3.is_true(m.eval(p, model_completion=True)):
+                    return False
+            except z3.Z3Exception:
+                return False
+        st.model_len = len(st.pc)
+        return True
 
     def branch(self, st: State, cond: z3.BoolRef) -> List[Tuple[State, bool]]:
         c = z3.simplify(cond)
@@ -112,18 +142,40 @@ class Executor:
             return [(st, True)]
         if z3.is_false(c):
             return [(st, False)]
-        ft = self.feasible(st.pc + [c])
-        ff = self.feasible(st.pc + [z3.Not(c)])
+        known = None
+        if self._model_ok(st):
+            try:
+                v = st.model.eval(c, model_completion=True)
+                if z3.is_true(v):
+                    known = True
+                elif z3.is_false(v):
+                    known = False
+            except z3.Z3Exception:
+                known = None
+        mt = mf = None
+        if known is True:
+            ft, mt = True, st.model
+            ff, mf = self.feasible(st.pc + [z3.Not(c)], want_model=True)
+        elif known is False:
+            ff, mf = True, st.model
+            ft, mt = self.feasible(st.pc + [c], want_model=True)
+        else:
+            ft, mt = self.feasible(st.pc + [c], want_model=True)
+            ff, mf = self.feasible(st.pc + [z3.Not(c)], want_model=True)
         if ft and ff:
             st2 = st.fork()
             st.assume(c)
             st2.assume(z3.Not(c))
+            st.model, st.model_len = mt, (len(st.pc) if mt is not None else 0)
+            st2.model, st2.model_len = mf, (len(st2.pc) if mf is not None else 0)
             return [(st, True), (st2, False)]
         if ft:
             st.assume(c)
+            st.model, st.model_len = mt, (len(st.pc) if mt is not None else 0)
             return [(st, True)]
         if ff:
             st.assume(z3.Not(c))
+            st.model, st.model_len = mf, (len(st.pc) if mf is not None else 0)
             return [(st, False)]
         return []  # state itself infeasible
 
@@ -165,6 +217,8 @@ class Executor:
 
     def raise_(self, st: State, cls: str, msg=None, **fields) -> Res:
         f = {"args": Tup([msg if msg is not None else sv_str("")])}
+        if cls == "SyntaxError":
+            f["msg"] = msg if msg is not None else sv_str("")
         f.update(fields)
         ref = self.alloc(st, Obj(cls, f))
         return (st, Exc(cls, ref))
@@ -200,6 +254,8 @@ class Executor:
                     return ModV(m)
                 return ModV(m)
             full = f"{m}.{attr}" if m else attr
+            if m == "specs.ghost":
+                return BuiltinV(f"ghost.{attr}")
             if m in self.repo.modules:
                 target = self.repo.modules[m]
                 if attr in target.functions or attr in target.classes or attr in target.globals_ \
@@ -401,7 +457,20 @@ class Executor:
         for v in e.values:
             parts.append(v.value if isinstance(v, ast.FormattedValue) else v)
 
+        skeleton: List[str] = [""]
+        for v in e.values:
+            if isinstance(v, ast.FormattedValue):
+                skeleton.append("")
+            else:
+                skeleton[-1] += str(v.value)
+        holes_idx = [i for i, v in enumerate(e.values) if isinstance(v, ast.FormattedValue)]
+
         def mk(s, vs):
+            hook = getattr(self, "fstring_hook", None)
+            if hook is not None and holes_idx:
+                r = hook(self, s, tuple(skeleton), [vs[i] for i in holes_idx])
+                if r is not None:
+                    return [(s, r)]
             terms = [self.to_str(s, v) for v in vs]
             if not terms:
                 return [(s, sv_str(""))]
@@ -584,6 +653,8 @@ class Executor:
             key = f"{o.cls}.{attr}"
             if key in self.attr_library:
                 return self.attr_library[key](self, st, ref, attr)
+            if attr == "transform" and "Transformer" in self.repo.mro(o.cls):
+                return [(st, BuiltinV("lark.Transformer.transform", ref))]
         if default is not None:
             return [(st, default)]
         return [self.raise_(st, "AttributeError", sv_str(f"'{o.cls}' object has no attribute '{attr}'"))]
@@ -826,7 +897,7 @@ class Executor:
             o = st.heap[c.oid]
             if isinstance(o, DictObj):
                 if o.tail is not None:
-                    raise Unsupported("lookup in an accumulated dict")
+                    return self.dict_tail_lookup(st, c, o, k)
                 return self.dict_lookup(st, o, k)
             if isinstance(o, ListObj):
                 return self.list_index(st, o.lt, k)
@@ -852,6 +923,27 @@ class Executor:
                 return out
             cur = nxt
         out.append(self.raise_(cur, "KeyError", k if isinstance(k, SV) else sv_str("key")))
+        return out
+
+    def dict_tail_lookup(self, st: State, c: Ref, o: DictObj, k) -> List[Res]:
+        """lookup in a dict whose entries are a symbolic sequence of (key, value) pairs: the hit index is a Skolem
+        constant"""
+        if o.entries or len(o.tail.segs) != 1 or not isinstance(o.tail.segs[0], L.MapSeg) \
+                or not o.tail.segs[0].body.is_concrete() or len(o.tail.segs[0].body.segs) != 1:
+            raise Unsupported("lookup in a dict of this shape")
+        seg = o.tail.segs[0]
+        pair = seg.body.segs[0].v
+        out: List[Res] = []
+        for s, hit in self.branch(st, self.contains(st, k, c)):
+            if not hit:
+                out.append(self.raise_(s, "KeyError", k if isinstance(k, SV) else sv_str("key")))
+                continue
+            j = self.fresh("hit", z3.IntSort())
+            self.skolems.append(j)
+            s.assume(z3.And(j >= 0, j < seg.n))
+            pj = self.subst(s, pair, seg.ivar, j)
+            s.assume(self.eq(s, pj.items[0], k))
+            out.append((s, pj.items[1]))
         return out
 
     def concrete_int(self, k) -> int:
